@@ -1,6 +1,8 @@
 //@unit quote
 //@include models/quotew.rs
 //@source src/builder.rs
+//@struct exec::Exec pubfields
+impl Exec {
 //@fn exec::Exec::display_escape vis=pub
 //@sreplace 1 /Cow<'_, str>/ => /Cow<'_>/
 //@rreplace ? /s\.is_empty\(\)/ => /str_is_empty(s)/
@@ -9,10 +11,40 @@
     ensures
         // the result is one shell word that evaluates to exactly s -- the empty string included
         shell_word_for(cow_view(r), s@), //[C19]
+        // and it is the bare string when that is safe, the single-quoted form otherwise
+        cow_view(r) == quote_of(s@), //[C19]
 //@nested nice_char
 //@rreplace 1 /c if c\.is_ascii_alphanumeric\(\) => true,/ => /c if is_ascii_alphanumeric(c) => true,/
         ensures r == nice(c), //[C19]
 //@endnested
 //@end
+
+//@fn exec::Exec::to_cmdline_lossy vis=pub
+//@attr #[verifier::loop_isolation(false)]
+//@rreplace 1 /env::vars_os\(\)\.collect\(\)/ => /env_vars_os_vec()/
+//@rreplace 1 /current\.iter\(\)\.map\(\|\(x, y\)\| \(x, y\)\)\.collect\(\)/ => /ref_map(&current)/
+//@rreplace 1 /for \(k, v\) in cmd_env/ => /let mut it1_ = pairs_iter(cmd_env); loop/
+//@rreplace 1 /if current_map\.get\(&k\) == Some\(&v\) \{/ => /let (k, v) = match it1_.next() { Some(p_) => p_, None => break }; if map_has(&current_map, k, v) {/
+//@rreplace 1 /cmd_env\.iter\(\)\.map\(\|\(k, v\)\| \(k, v\)\)\.collect\(\)/ => /ref_map(cmd_env)/
+//@rreplace 1 /for \(k, _\) in current/ => /let mut it2_ = into_pairs_iter(current); loop/
+//@rreplace 1 /if !cmd_env\.contains_key\(&k\) \{/ => /let (k, _) = match it2_.next() { Some(p_) => p_, None => break }; if !cmd_env.contains_key(&k) {/
+//@rreplace + /&Exec::display_escape\(&([\w.]+)\.to_string_lossy\(\)\)/ => /cow_str(&Exec::display_escape(cow_str(&\1.to_string_lossy())))/
+//@rreplace 1 /for arg in &self\.args/ => /for arg in it: &self.args/
+    ensures
+        // the text is: the environment prefix, the quoted program, and every argument preceded by one blank and quoted -- in order,
+        // nothing else; with the postcondition of display_escape each word evaluates, in sh, to exactly the string it stands for
+        r@ =~= env_text(self.config.env) + quote_of(self.command.lossy()) + args_text(self.args@), //[C19]
+//@loop 0
+        invariant self.config.env.is_some(), it1_.all@ == self.config.env->Some_0@, it1_.pos@ <= it1_.all@.len(), current_map.src() == process_env(),
+            out@ =~= env_set_n(it1_.all@, process_env(), it1_.pos@ as int),
+        decreases it1_.all@.len() - it1_.pos@,
+//@loop 1
+        invariant self.config.env.is_some(), it2_.all@ == process_env(), it2_.pos@ <= it2_.all@.len(), cmd_env.src() == self.config.env->Some_0@,
+            out@ =~= env_set_n(cmd_env.src(), process_env(), cmd_env.src().len() as int) + env_unset_n(cmd_env.src(), process_env(), it2_.pos@ as int),
+        decreases it2_.all@.len() - it2_.pos@,
+//@loop 2
+        invariant out@ =~= env_text(self.config.env) + quote_of(self.command.lossy()) + args_text_n(self.args@, it.index@ as int),
+//@end
+}
 } // verus!
 fn main() {}
